@@ -42,6 +42,16 @@ CHECKS = {
          "For three values of every single-unit type: every truncation point, every tag and length byte x {8 bit flips, 00, 7f, 80, ff}, a well-formed record of every non-fitting wire type before/after, groups, declared-length perturbations, field number 0; plus all byte strings up to length 2 (3 thorough) against 6 classes. Decoding must terminate; a returned message must be type-correct and re-encodable; inputs the model and the reference both call malformed must be rejected; mismatched wire types must be kept as unknown fields without altering known ones.",
          "the reference decoder is the arbiter of malformedness where it is more lenient than the wire model (e.g. inside skipped groups); agreement matrix is recorded in the evidence",
          "DESIGN.md §4 C17"),
+ "C07": ("model_checking",
+         "explicit-state breadth-first search to a fixpoint over the complete internal state of a real message under a finite operation alphabet, against a last-writer-wins reference model",
+         "From every constructor (incl. the illegal two-member one) every operation of the alphabet (set each member to default/non-default, plain field, parse of every 0..2 member records in every order into the live instance, instance/class from_dict, copy, deepcopy, pickle, reads) is applied in every reachable state until no new state appears; in every state which_one_of, AttributeError on siblings, the wire tokens and the to_dict keys are compared with the model. Covers all finite histories over the alphabet.",
+         "state key = full __dict__ (no abstraction); model = dict group -> last set member",
+         "DESIGN.md §4 C07"),
+ "C14": ("model_checking",
+         "explicit-state breadth-first search to a fixpoint over the complete internal state of a real message; every observer and copy operation in every reachable state, edge invariant by differential replay",
+         "66 initial states (11 values x constructor / setattr / in-place / parse / parse-with-unknown-fields / from_dict) x 26 observers and copy, deepcopy, pickle, closed under composition: on every edge the observable projection (bytes, values, presence, oneof, element types) must equal that of a separate replay without the operation; copies must be equal, byte-identical and (deep copies) independent under 10 mutators.",
+         "state key = full __dict__; one message class covering nested, optional, oneof, map-of-message, repeated, Timestamp, wrapper and enum fields",
+         "DESIGN.md §4 C14"),
 }
 
 NOT_APPLICABLE_REASON = "check not built yet in this session; see DESIGN.md for the planned bounded-exhaustive exploration"
